@@ -1,6 +1,9 @@
 #!/bin/bash
 # usage: tools/seeded.sh verify <id>         confirm demo/tests in a scratch worktree
-#        tools/seeded.sh run <id> <PROP>...  apply to /repo, run quick checks, revert
+#        tools/seeded.sh run <id> <PROP>...  run quick checks against the patch, in a scratch
+#                                            worktree selected with PSIM_REPO (leaves /repo alone)
+#        tools/seeded.sh run-in-repo <id> <PROP>...  the prescribed way: git -C /repo apply,
+#                                            run, git -C /repo checkout -- .
 set -u
 cmd=$1; id=$2; shift 2
 d=/verif/seeded/$id
@@ -15,12 +18,18 @@ if [ "$cmd" = verify ]; then
   cd /; git -C /repo worktree remove --force $wt
   echo "$id demo clean exit=$c patched exit=$p tests: $t"
 elif [ "$cmd" = run ]; then
+  wt=/tmp/wtr-$id
+  git -C /repo worktree add -q $wt HEAD || exit 2
+  (cd $wt && git apply $d/patch.diff) || { echo "patch does not apply"; git -C /repo worktree remove --force $wt; exit 2; }
+  for prop in "$@"; do
+    (cd /verif && PSIM_REPO=$wt PSIM_SCRATCH=1 PSIM_SCALE=${PSIM_SCALE:-1} timeout 1800 /venv/bin/python -m psim.check $prop --tier quick 2>&1 | grep -E "VIOLATION|rule=|done property|HARNESS" | head -8)
+  done
+  git -C /repo worktree remove --force $wt
+elif [ "$cmd" = run-in-repo ]; then
   cd /repo && git diff --quiet || { echo "/repo dirty"; exit 2; }
   git -C /repo apply $d/patch.diff || exit 2
   for prop in "$@"; do
-    (cd /verif && PSIM_SCALE=${PSIM_SCALE:-1} timeout 1800 /venv/bin/python -m psim.check $prop --tier quick 2>&1 | grep -E "VIOLATION|rule=|done property|HARNESS" | head -8)
+    (cd /verif && PSIM_SCRATCH=1 PSIM_SCALE=${PSIM_SCALE:-1} timeout 1800 /venv/bin/python -m psim.check $prop --tier quick 2>&1 | grep -E "VIOLATION|rule=|done property|HARNESS" | head -8)
   done
   git -C /repo checkout -- .
-  rm -f /verif/replays/*.json
-  (cd /verif && git checkout -- evidence 2>/dev/null)
 fi
